@@ -54,6 +54,13 @@ def generate(rng, tier, seed):
                     ["p", ["sleep", 1]] + [["next", 0, v] for v in items] + [["repoll", 0], last]],
                    ["fini"], ["sched"] + sched]
             cases.append({"scn": scn, "sched": sched, "items": items, "en": list(en) if en != "c" else "c", "pipe": "(hot replay)+repoll", "repoll": True})
+    # the SAME Observable value awaited twice in a row (to_vec() twice on one observe_on / subscribe_on pipeline): the second future
+    # resolves like the first
+    for p in ([["op", "observe_on", [], ["from_iter", 1, 2]], ["op", "subscribe_on", [], ["from_iter", 1, 2]], ["op", "map", [["id"]], ["op", "observe_on", [], ["just", 7]]]]):
+        sched = ["random", seed * 1000 + 21, 30 if thorough else 12]
+        items_ = [7] if "just" in sx.dumps(p) else [1, 2]
+        cases.append({"scn": ["conc", ["objects", ["tovec", p]], ["init", ["block_on", 0], ["block_on", 0]], ["threads"], ["fini"], ["sched"] + sched],
+                      "sched": sched, "items": items_, "en": "c", "pipe": sx.dumps(p) + " x2", "twice": True})
     # time-based sources
     for k in ([1, 2, 3] if thorough else [2]):
         p = ["op", "take", [k], ["interval", 10]]
@@ -128,6 +135,11 @@ def judge(cases, runs):
             if ob["status"] != "ok" or ob.get("panics", 0):
                 viol.append((ci, sd, "the future never became ready: run ended with status %s (lost wake-up?) after %d polls" % (ob["status"], polls)))
                 continue
+            if case.get("twice"):
+                if len(results) != 2 or sx.dumps(results[0][5]) != sx.dumps(results[1][5]):
+                    viol.append((ci, sd, "the same Observable value awaited twice: results %s" % " / ".join(sx.dumps(r[5]) for r in results)))
+                    continue
+                results = results[:1]
             if len(results) != 1:
                 viol.append((ci, sd, "%d results" % len(results)))
                 continue
@@ -140,7 +152,7 @@ def judge(cases, runs):
             if r2 and sx.dumps(r2[0][5]) != key:
                 viol.append((ci, sd, "a second awaiter of the same to_vec state (a clone, polled after the first resolved) got %s, the first %s" % (sx.dumps(r2[0][5]), key)))
                 continue
-            if not spurious and not case.get("repoll") and polls not in mpolls[key]:
+            if not spurious and not case.get("repoll") and not case.get("twice") and polls not in mpolls[key]:
                 unshown.append((ci, sd, "result %s after %d polls; the model allows %s" % (key, polls, sorted(mpolls[key]))))
             reached.add((ci, "(%d %s)" % (polls, key[1:-1])))
             if polls >= 2:
